@@ -36,7 +36,7 @@ Emit == stage = 7 =>
   PrintT(ToJson([gen |-> "yaml", lengths |-> v.lengths, offsets |-> v.offsets, noff |-> v.noff, nsign |-> v.nsign,
                  dof_place |-> v.dof[1], dof_value |-> v.dof[2], sign6 |-> v.sign6, layout |-> v.layout,
                  expect_dof |-> dof, expect_sign6 |-> ExpectedSign6(v.nsign, v.sign6, dof),
-                 expect_off6_zero |-> v.noff = 5]))
+                 expect_off6_zero |-> v.noff \in {0, 5}]))
 
 \* the tokens used by the variants are exactly the documented ones, and the printer's own output is among them
 TokensDocumented == stage >= 2 => \A i \in 1..6 : v.offsets[i] \in DocumentedOffsetTokens
